@@ -113,6 +113,16 @@ fn main() {
         print(&out, &[]);
         return;
     }
+    if harness == "c05_next" || harness == "c05_more" || harness == "c05_call" {
+        let out = std::panic::catch_unwind(|| r_c07::client_iter(&[])).unwrap_or(Outcome {
+            reproduced: true,
+            role: "more-iteration".into(),
+            scenario: "more() iteration against a scripted reply stream".into(),
+            detail: "panicked".into(),
+        });
+        print(&out, &[]);
+        return;
+    }
     if harness.starts_with("c07_") {
         let vals: Vec<u8> = args[2].split(',').filter_map(|x| x.trim().parse::<u64>().ok()).map(|x| x as u8).collect();
         let out = r_c07::run(&vals);
